@@ -294,6 +294,22 @@ def run(ctx):
         a = np.array(ctx.rng.choices(vals, k=ctx.rng.choice([2, 6, 20])), dtype=np.int64)
         one(ctx, a, ctx.rng.choice([None, vals[0]]), True, ctx.rng.choice(["none", "injective"]), reqs, pend)
         ctx.hit("large_magnitudes_with_counts")
+    # long scan-shaped inputs: row counts around and beyond 2^16 (any chunking, offset or counter of that size is crossed),
+    # uncommon cells placed in every part of the range including the last rows
+    for N in ((70000, 100000) if ctx.scale == 1 else (65535, 65536, 65537, 70000, 100000, 131072, 140000, 200003)):
+        ncols = ctx.rng.choice([None, 2])
+        shape = (N,) if ncols is None else (N, ncols)
+        size = int(np.prod(shape))
+        vals = ctx.rng.sample(range(1, 40), ctx.rng.randrange(5, 8))
+        a = np.zeros(size, dtype=np.int64)
+        pos = sorted(set([0, 1, size - 1, size - 2, size // 2, 65535, 65536, 65537 % size] +
+                         [ctx.rng.randrange(size) for _ in range(max(10, size // 400))]))
+        for i, q in enumerate(pos):
+            a[q] = vals[i % len(vals)]
+        a = a.reshape(shape)
+        ctx.hit("long_scan_shaped")
+        for (common, uc, mk) in [(None, False, "none"), (0, ctx.rng.random() < 0.5, ctx.rng.choice(["none", "injective", "many_to_one"]))]:
+            one(ctx, a, common, uc, mk, reqs, pend, force_no_model=True)
     huge_values(ctx)
     if ctx.oracle_only:
         return
